@@ -95,6 +95,10 @@ fn prepare_project(file_path: &str, output_dir: Option<&str>) -> CliResult<Prepa
     for crate_name in &rust_crates {
         generator.add_rust_crate(crate_name);
     }
+    // A crate without a known-good version is refused, never silently added as `*`.
+    if let Some(err) = generator.first_unknown_crate() {
+        return Err(CliError::failure(err.to_string()));
+    }
 
     // Generate Rust project files
     let has_deps = !dep_modules.is_empty();
